@@ -8,6 +8,7 @@ import (
 	"fmt"
 	"os"
 	"path/filepath"
+	rtdebug "runtime/debug"
 	"strings"
 	"sync"
 	"testing"
@@ -367,6 +368,10 @@ func c11Run(u *vfUnit) {
 				closeFails = true
 			}
 		}
+		// no garbage collection until the descriptor check after Serve: a forgotten file must not be rescued by a finalizer
+		if e.kind == vfOS {
+			rtdebug.SetGCPercent(-1)
+		}
 		rs, err := vfRawConnect(cfg, vfPipeOpts{}, true)
 		if err != nil {
 			u.Inconclusive("connect: %v", err)
@@ -489,7 +494,9 @@ func c11Run(u *vfUnit) {
 			u.Violation("goroutine-leak:"+e.kind.String(), fmt.Sprintf("%s: %d package goroutine(s) survive Serve\n%s", label, len(leaks), vfTrim(strings.Join(leaks, "\n\n"), 2000)), w)
 		}
 		if e.kind == vfOS {
-			if fds := vfFDsUnder(e.dir); len(fds) > 0 {
+			fds := vfFDsUnder(e.dir)
+			rtdebug.SetGCPercent(100)
+			if len(fds) > 0 {
 				u.Violation("fd-leak:Server:"+en.how, fmt.Sprintf("%s: %d file(s) of the served tree still open after Serve returned: %v", label, len(fds), fds[:min(len(fds), 5)]), w)
 			}
 			u.Count("objects_judged", int64(len(x.hs)))
